@@ -23,7 +23,7 @@ import signal
 
 import numpy as np
 
-from .. import biv, cases, vinebuildgen, vinegen
+from .. import biv, cases, vinebuildgen, vinefitgen, vinegen
 from .. import vinestruct as VS
 
 VTS = ('center', 'direct', 'regular')
@@ -454,6 +454,10 @@ def _run(ctx):
     # recorded above) and, with them, the generated dispatch / Tree.fit / train_vine / VineCopula.fit for all three vine types: C16_regular.v
     ctx.copy_src('Props/C16_regular.v')
     ctx.compile(['Gen_vinebuild.v', 'C16_build.v', 'C16_regular.v'])
+    # Tree.get_tau_matrix and VineCopula.__init__ / fit outside train_vine (tools/vf/vinefitgen.py; bridges + F8 on the generated functions: C16_fit.v)
+    vinefitgen.record(ctx, vinefitgen.generate(ctx, kstatus))
+    ctx.copy_src('Props/C16_fit.v')
+    ctx.compile(['Gen_vinefit.v', 'C16_fit.v'])
     ctx.rule('unit level: real VineCopula.train_vine + Tree.fit + CenterTree/DirectTree/RegularTree with synthetic tau matrices per level '
              '(select_copula, get_tau_matrix, prepare_next_tree stubbed): every strict ordering of the pairwise |tau| ranks for d = 2,3,4 '
              '(40 sampled orderings of the 720 for d = 4 in the quick tier) with random signs, and boundary-biased random matrices for d = 2..7 '
